@@ -251,6 +251,12 @@ func (in *interp) exec(s Stmt, env *Env, retT Type) (ctl, Value) {
 	case *Assign:
 		pl := in.place(s.LHS, env)
 		v := Copy(in.eval(s.RHS, env))
+		if _, isDyn := pl.Get().(DynV); isDyn {
+			// an array literal assigned to a dynamic array variable is a fresh dynamic array
+			if a, ok := v.(*ArrV); ok {
+				v = DynV{&DynObj{E: a.E}}
+			}
+		}
 		pl.Set(v)
 	case *OpAssign:
 		pl := in.place(s.LHS, env)
@@ -285,8 +291,18 @@ func (in *interp) exec(s Stmt, env *Env, retT Type) (ctl, Value) {
 		lo := in.eval(s.Lo, env).(IntV)
 		hi := in.eval(s.Hi, env).(IntV)
 		i := new(big.Int).Set(lo.V)
+		step := big.NewInt(1)
+		if s.Step != nil {
+			step = in.eval(s.Step, env).(IntV).V
+		}
 		for {
 			cmp := i.Cmp(hi.V)
+			if step.Sign() == 0 {
+				break
+			}
+			if step.Sign() < 0 {
+				cmp = -cmp
+			}
 			if cmp > 0 || (cmp == 0 && !s.Incl) {
 				break
 			}
@@ -300,7 +316,7 @@ func (in *interp) exec(s Stmt, env *Env, retT Type) (ctl, Value) {
 			if c == cReturn {
 				return c, v
 			}
-			i.Add(i, big.NewInt(1))
+			i.Add(i, step)
 		}
 	case *ForIn:
 		x := in.eval(s.X, env)
